@@ -382,7 +382,11 @@ def run_grid(d, on_read):
     g.generate(d['nu'], d['nv'])
     for name, val in d['ops']:
         if name == 'w':
-            g.weight = qs(val)
+            lst = qs(val)
+            g.weight = lst
+            # the caller goes on using his own list (the generator must have taken the VALUES): scribble over it
+            for i_ in range(len(lst)):
+                lst[i_] = lst[i_] + 97
         elif name == 's':
             g.weight = q(val)
         else:
